@@ -255,6 +255,22 @@ fn gen_inner(rng: &mut Rng) -> Vec<u8> {
 }
 
 pub fn special(run: &mut Run, rng: &mut Rng, thorough: bool) {
+    {
+        // framed truncations: attributes cut at every length with the STUN length field adjusted
+        let ts = targets();
+        for _ in 0..(if thorough { 3_000 } else { 150 }) {
+            let v = gen_stun(rng);
+            for k in 0..=(v.len() - 20) {
+                let mut m = v[..20 + k].to_vec(); m[2..4].copy_from_slice(&(k as u16).to_be_bytes());
+                super::run_bytes(run, &ts[0], &m, true);
+            }
+            let b = gen_binding_req(rng);
+            for k in 0..=(b.len() - 20) {
+                let mut m = b[..20 + k].to_vec(); m[2..4].copy_from_slice(&(k as u16).to_be_bytes());
+                super::run_bytes(run, &ts[1], &m, true); super::run_bytes(run, &ts[2], &m, true);
+            }
+        }
+    }
     let live = Live::new();
     // handle_packet: empty, every 1-byte datagram, valid STUN / DTLS-ish / RTP, mutations
     run_hpkt(run, &live, &[], true);
